@@ -288,6 +288,7 @@ func runC08(c *core.Ctx) {
 		c.Obs("tasks", 1)
 		c.Sample("task", map[string]any{"fn": name, "enumeration": kind, "index_range": []uint64{t.lo, t.hi}, "values": count})
 	}
+	flushScanObs(c)
 	c.Floor("tasks", int64(len(tasks)))
 	c.Floor("inputs_ge_1", 1000)
 	c.Floor("inputs_le_minus_1", 1000)
